@@ -376,6 +376,10 @@ Cnt dec_cnt(const std::string& t) {
 
 vf::Result check_counter(const Cnt& cc) {
     unsigned n = cc.source == 0 ? (cc.n & 0xFF) : (cc.n & 0xFFFF);
+    // block repeats only: 0..3 enclosing two-pass block repeats, so that the counter is read at nesting depth 1..4
+    const unsigned outer = cc.kind == 0 ? (cc.extra / 18) % 4 : 0;
+    if (outer)
+        n %= 301;
     std::vector<uint16_t> code;
     uint64_t instr = 0;
     State st = flat::reset_state();
@@ -386,36 +390,55 @@ vf::Result check_counter(const Cnt& cc) {
     st[flat::F_r + 2] = 0x7000;
     if (cbase != 0x1000)
         vf::klass("counter program in page " + std::to_string(cbase >> 16));
-    if (cc.source != 0) {
+    // count sources: 0 immediate, 1 r5 (loaded by the program), 2 r6, 3 / 4 the low / high half of b0, preset to a value whose
+    // extension bits are (mostly) not a sign extension: a count register is read as its plain 16 bits
+    long count_reg = kRegR5;
+    if (cc.source == 1 || cc.source == 2) {
         code.push_back(cc.source == 1 ? W("mov(Imm16,Register)", {-1, kRegR5}) : W("mov_r6(Imm16)", {-1}));
         code.push_back((uint16_t)n);
         ++instr;
+    } else if (cc.source >= 3) {
+        uint64_t other = vf::mix64(cc.n * 977 + cc.extra) & 0xFFFF, ext = (vf::mix64(cc.extra * 31 + cc.n) >> 8) & 0xFF;
+        uint64_t lo = cc.source == 3 ? n : other, hi = cc.source == 3 ? other : n;
+        st[flat::F_b + 0] = flat::sext40((ext << 32) | (hi << 16) | lo);
+        count_reg = cc.source == 3 ? 18 : 16; // Register operand codes of b0l / b0h
+        vf::klass(std::string("count from an accumulator half, accumulator ") + (st[flat::F_b + 0] == (uint64_t)(int64_t)(int32_t)(uint32_t)st[flat::F_b + 0] ? "fits" : "exceeds") +
+                  " 32 bits");
     }
     uint32_t store_base;
     if (cc.kind == 0) {
         // bkrep N { mov lc, [r1]+ ; (1 + extra) x inc a0 }   -- the store is not the last instruction of the block
-        uint32_t body_base = cbase + (uint32_t)code.size() + 2;
+        uint32_t body_base = cbase + (uint32_t)code.size() + 2 + 2 * outer;
         unsigned extra = 1 + cc.extra % 3;
         uint32_t end = body_base + extra; // last word = the last inc
+        for (unsigned j = outer; j >= 1; --j) { // enclosing loops, outermost first; level j ends on its own "inc a1" at end + j
+            code.push_back(W("bkrep(Imm8,Address16)", {1, -1}));
+            code.push_back((uint16_t)(end + j));
+        }
         if (cc.source == 0) {
             code.push_back(W("bkrep(Imm8,Address16)", {(long)n, -1}));
-        } else if (cc.source == 1) {
-            code.push_back(W("bkrep(Register,Address18_16,Address18_2)", {kRegR5, -1, (long)(end >> 16)}));
-        } else {
+        } else if (cc.source == 2) {
             code.push_back(W("bkrep_r6(Address18_16,Address18_2)", {-1, (long)(end >> 16)}));
+        } else {
+            code.push_back(W("bkrep(Register,Address18_16,Address18_2)", {count_reg, -1, (long)(end >> 16)}));
         }
         code.push_back((uint16_t)end);
         code.push_back(W("mov(Register,Rn,StepValue#4)", {kRegLc, 1, 1}));
         for (unsigned k = 0; k < extra; ++k)
             code.push_back(W("moda4(ModaOp#16,Ax,CondValue)", {13, 0, 0}));
-        instr += 1 + ((uint64_t)n + 1) * (extra + 1);
+        for (unsigned j = 0; j < outer; ++j)
+            code.push_back(W("moda4(ModaOp#16,Ax,CondValue)", {13, 1, 0})); // inc a1: the last instruction of enclosing level j + 1
+        uint64_t level = 1 + ((uint64_t)n + 1) * (extra + 1);
+        for (unsigned j = 0; j < outer; ++j)
+            level = 1 + 2 * (level + 1);
+        instr += level;
         store_base = 0x20000 + 0x5000;
     } else {
         // rep N ; mov repc, [r2]+    (through ar0: arrn0 = r2, step +1)
         st[flat::F_arrn + 0] = 2;
         st[flat::F_arstep + 0] = 1;
         st[flat::F_aroffset + 0] = 0;
-        code.push_back(cc.source == 0 ? W("rep(Imm8)", {(long)n}) : (cc.source == 1 ? W("rep(Register)", {kRegR5}) : W("rep_r6()", {})));
+        code.push_back(cc.source == 0 ? W("rep(Imm8)", {(long)n}) : (cc.source == 2 ? W("rep_r6()", {}) : W("rep(Register)", {count_reg})));
         code.push_back(W("mov_repc_to(ArRn1,ArStep1)", {0, 0}));
         instr += 1 + (uint64_t)n + 1;
         store_base = 0x20000 + 0x7000;
@@ -428,20 +451,25 @@ vf::Result check_counter(const Cnt& cc) {
     c.more_code.assign(code.begin() + 2, code.end());
     c.cycles = (unsigned)instr;
     icase::IResult r = sut().exec(c);
-    std::string what = std::string(cc.kind ? "rep" : "bkrep") + " count " + std::to_string(n) + " source " + std::to_string(cc.source);
+    std::string what = std::string(cc.kind ? "rep" : "bkrep") + " count " + std::to_string(n) + " source " + std::to_string(cc.source) +
+                       (outer ? " inside " + std::to_string(outer) + " enclosing block repeat(s)" : "");
+    const uint64_t total = ((uint64_t)n + 1) << outer; // iterations of the counting loop over the whole run
     if (r.outcome != 0)
         return vf::Result::fail("C09:counter:outcome", "did not complete (" + r.what + ") for " + what);
     // the store pointer wraps in the 16-bit data space; data address 0xFFFF is the MMIO cell of this core (not memory)
     uint16_t base16 = (uint16_t)(store_base - 0x20000);
-    bool hits_mmio = (uint32_t)base16 + n >= 0xFFFF;
-    if (r.writes.size() != (size_t)n + 1 - (hits_mmio ? 1 : 0))
+    bool hits_mmio = (uint64_t)base16 + total - 1 >= 0xFFFF;
+    if (r.writes.size() != (size_t)total - (hits_mmio ? 1 : 0))
         return vf::Result::fail(std::string("C09:counter:iterations:") + (cc.kind ? "rep" : "bkrep"), "the body ran " + std::to_string(r.writes.size()) +
-                                                                                                        " times instead of " + std::to_string(n + 1) + " for " + what);
+                                                                                                        " times instead of " + std::to_string(total) + " for " + what);
     // the counter counts down once per iteration and ends at 0; whether an iteration sees the value before or after
     // that iteration's decrement depends on where in the body it is read, so both phases are accepted
     unsigned prev = 0;
-    for (unsigned k = 0; k <= n; ++k) {
-        uint16_t a16 = (uint16_t)(base16 + k);
+    for (uint64_t kk = 0; kk < total; ++kk) {
+        unsigned k = (unsigned)(kk % ((uint64_t)n + 1)); // iteration within this run of the counting loop
+        if (k == 0 && kk != 0 && prev != 0)
+            return vf::Result::fail("C09:counter:final:bkrep", "a run of the counting loop ended with counter " + vf::hex(prev) + " instead of 0 for " + what);
+        uint16_t a16 = (uint16_t)(base16 + kk);
         if (a16 == 0xFFFF) {
             prev = k == 0 ? n : (prev ? prev - 1 : 0);
             continue;
@@ -461,6 +489,8 @@ vf::Result check_counter(const Cnt& cc) {
     if (r.after[flat::F_lp] || r.after[flat::F_bcn] || r.after[flat::F_rep])
         return vf::Result::fail("C09:counter:loopstate", "in-loop state not clear after exit for " + what);
     vf::klass(std::string("counter sequence ") + (cc.kind ? "rep" : "bkrep") + (n == 0 ? " N=0" : (n >= 256 ? " N>=256" : "")));
+    if (outer)
+        vf::klass("counter read at nesting depth " + std::to_string(outer + 1));
     vf::note(vf::hash_str(enc_cnt(cc)), n >= 1);
     return vf::Result::pass();
 }
@@ -539,7 +569,7 @@ int main(int argc, char** argv) {
     q.name = "loop_counter";
     q.gen = [] {
         auto nGen = gen::weightedOneOf<unsigned>({{6, vf::range<unsigned>(0, 41)}, {1, gen::element<unsigned>(255, 256, 0x7FFF, 0xFFFF)}, {1, vf::range<unsigned>(0, 0x10000)}});
-        return gen::map(gen::tuple(vf::range<unsigned>(0, 2), nGen, vf::range<unsigned>(0, 3), vf::range<unsigned>(0, 18)), [](std::tuple<unsigned, unsigned, unsigned, unsigned> t) {
+        return gen::map(gen::tuple(vf::range<unsigned>(0, 2), nGen, vf::range<unsigned>(0, 5), vf::range<unsigned>(0, 72)), [](std::tuple<unsigned, unsigned, unsigned, unsigned> t) {
             Cnt c;
             c.kind = std::get<0>(t);
             c.n = std::get<1>(t);
